@@ -833,7 +833,9 @@ func (s *Sim) Apply(a Action) {
 	case "raisemax":
 		e := &experimentsv1beta1.Experiment{}
 		if err := s.store.Get(ctx, types.NamespacedName{Name: ExpName, Namespace: NS}, e); err == nil {
-			if e.Spec.MaxTrialCount != nil && int64(*e.Spec.MaxTrialCount) < a.N && e.DeletionTimestamp.IsZero() {
+			// the validating webhook (C15) admits the edit only for a non-completed or a restartable experiment
+			if e.Spec.MaxTrialCount != nil && int64(*e.Spec.MaxTrialCount) < a.N && e.DeletionTimestamp.IsZero() &&
+				(!e.IsCompleted() || exputil.IsCompletedExperimentRestartable(e)) {
 				e.Spec.MaxTrialCount = i32(a.N)
 				if err := s.store.Update(ctx, e); err != nil {
 					panic(err)
